@@ -148,25 +148,27 @@ def bestStage2 (cfg : Cfg) :
       else bestStage2 cfg rest rnodes ms (ls ++ [l])
     | none => bestStage2 cfg rest rnodes ms (ls ++ [l])
 
-/-- `lnodes.pop(i)` for every matched index, i.e. keep the unmatched positions. -/
-def dropIdx {α : Type} (xs : List α) (idxs : List Nat) : List α :=
-  (xs.zipIdx.filter (fun p => !(idxs.contains p.2))).map (·.1)
+/-- fast_match stage (diff.py 121-136).  `lnodes.pop(i)` / `rnodes.pop(j)` for every matched
+index pair is written as "keep the nodes whose id was not matched", which is the same list
+because ids are distinct. -/
+def fastEq (cfg : Cfg) (sim : Sim) (lnodes rnodes : List Tree) : Nat → Nat → Bool := fun i j =>
+  match lnodes[i]?, rnodes[j]? with
+  | some l, some r => decide (nodeRatio cfg sim [] l r ≥ cfg.F)
+  | _, _ => false
 
-/-- fast_match stage (diff.py 121-136). -/
+def fastPairs (lnodes rnodes : List Tree) (ps : List (Nat × Nat)) : List (Nat × Nat) :=
+  ps.filterMap (fun p =>
+    match lnodes[p.1]?, rnodes[p.2]? with
+    | some l, some r => some (l.id, r.id)
+    | _, _ => none)
+
 def fastStage (cfg : Cfg) (sim : Sim) (lnodes rnodes : List Tree) : List Tree × List Tree × Matches :=
-  let la := lnodes.toArray
-  let ra := rnodes.toArray
-  let eq : Nat → Nat → Bool := fun i j =>
-    match la[i]?, ra[j]? with
-    | some l, some r => decide (nodeRatio cfg sim [] l r ≥ cfg.F)
-    | _, _ => false
-  match Lcs.lcs eq lnodes.length rnodes.length with
+  match Lcs.lcs (fastEq cfg sim lnodes rnodes) lnodes.length rnodes.length with
   | .ok ps =>
-    let ms : Matches := ps.foldl (fun acc p =>
-      match la[p.1]?, ra[p.2]? with
-      | some l, some r => (l.id, r.id) :: acc
-      | _, _ => acc) []
-    (dropIdx lnodes (ps.map (·.1)), dropIdx rnodes (ps.map (·.2)), ms)
+    let pairs := fastPairs lnodes rnodes ps
+    (lnodes.filter (fun l => !((pairs.map (·.1)).contains l.id)),
+     rnodes.filter (fun r => !((pairs.map (·.2)).contains r.id)),
+     pairs.reverse)
   | _ => (lnodes, rnodes, [])
 
 /-- `Differ.match()`: the list of matched id pairs in the order they were appended. -/
